@@ -198,6 +198,17 @@ def _judge_rel(rec, ctx, F, n_ch, n_poles, kw):
     FFm = _mat(lambda i: D.FormFactor(S["s"], S["m_a"][i], S["m_b"][i], L, radius), n_ch)
     Wn = eval_matrix(W, env, n_s)                                       # (s, pole, channel)
     FFn = eval_matrix(FFm, env, n_s)[:, :, 0]                           # (s, channel)
+    # the width itself against its documented definition Gamma0 (F(s)/F(m0^2))^2 rho(s)/rho(m0^2), with F and rho evaluated
+    # separately at s and at the pole and rho the phase-space factor the *caller* passed
+    FF0 = _mat(lambda r, i: D.FormFactor(S["m"][r + 1] ** 2, S["m_a"][i], S["m_b"][i], L, radius), n_poles, n_ch)
+    rho0 = _mat(lambda r, i: phsp(S["m"][r + 1] ** 2, S["m_a"][i], S["m_b"][i]), n_poles, n_ch)
+    FF0n, rho0n = eval_matrix(FF0, env, n_s), eval_matrix(rho0, env, n_s)
+    with np.errstate(all="ignore"):
+        Wdef = G[1:][None] * (FFn[:, None, :] / FF0n) ** 2 * (rn[:, None, :] / rho0n)
+    okw = np.isclose(Wn, Wdef, rtol=1e-8, atol=0) | ~np.isfinite(Wdef)
+    rec.check(bool(okw.all()), "width_definition",
+              f"EnergyDependentWidth(..., phsp_factor={phsp.__name__}) != Gamma0 (F(s)/F(m0^2))^2 rho(s)/rho(m0^2) with the phase-space factor that was passed "
+              f"(max relative deviation {np.nanmax(np.abs(Wn / Wdef - 1)):.3g})", desc, feats)
     gres = g[1:][None] * np.sqrt(m[1:][None, :, None] * Wn + 0j)        # (s, pole, channel)
     den = m[1:][None, :] ** 2 - sv[:, None]                             # (s, pole)
     Kref = np.einsum("nri,nrj,nr->nij", gres, gres, 1 / den)
